@@ -41,18 +41,21 @@ type binding struct {
 	ret      Ty
 	mutable  bool // a local that closures may set!
 	recur    bool // recursive on its first parameter: call it with a small literal only
+	frozen   bool // never the target of a generated set! (the counter of a bounded recursion)
 }
 
 // Profile tunes the generator.
 type Profile struct {
-	Hostile    int  // per-mille chance that an expression is replaced by an ill-typed / wrong-arity one
-	Handlers   bool // generate handler-bind / ignore-errors / error
-	Macros     bool // generate defmacro / macrolet with quasiquote templates
-	MaxDepth   int
-	TopForms   int
-	NoFloats   bool
-	LoopBudget int // max iteration count used for dotimes / recursion
-	Shadow     int // per-mille chance of choosing a shadowing name
+	Hostile       int  // per-mille chance that an expression is replaced by an ill-typed / wrong-arity one
+	Handlers      bool // generate handler-bind / ignore-errors / error
+	Macros        bool // generate defmacro / macrolet with quasiquote templates
+	MaxDepth      int
+	TopForms      int
+	NoFloats      bool
+	LoopBudget    int // max iteration count used for dotimes / recursion
+	Shadow        int // per-mille chance of choosing a shadowing name
+	CaptureShadow int // per-mille chance that an int-valued let/let* is a captureLet (a closure initialiser captures a variable the form rebinds); 0 leaves generation as it was
+	Reentrant     int // per-mille chance that a bounded recursion's step is a re-entrant form (reentrant.go); 0 leaves generation as it was
 }
 
 func DefaultProfile() Profile {
@@ -69,7 +72,9 @@ type G struct {
 	nprobe  int
 	nloc    int
 	Feat    map[string]bool
+	Shape   map[string]bool // shapes of the re-entrant forms generated (coverage)
 	inFn    int
+	forceRe bool // the next defun is a bounded recursion with a re-entrant step
 }
 
 func New(r *fw.RNG, p Profile) *G {
@@ -298,9 +303,15 @@ func (g *G) wrapper(t Ty, d int) *sx.N {
 		return sx.Call("if", g.expr(TBool, d-1), g.expr(t, d-1), g.expr(t, d-1))
 	case 1:
 		g.feat("let")
+		if t == TInt && g.P.CaptureShadow > 0 && g.chance(g.P.CaptureShadow) {
+			return g.captureLet("let", d)
+		}
 		return g.letForm("let", t, d)
 	case 2:
 		g.feat("let*")
+		if t == TInt && g.P.CaptureShadow > 0 && g.chance(g.P.CaptureShadow) {
+			return g.captureLet("let*", d)
+		}
 		return g.letForm("let*", t, d)
 	case 3:
 		g.feat("progn")
@@ -465,6 +476,45 @@ func (g *G) letForm(kind string, t Ty, d int) *sx.N {
 	return sx.Call(kind, append([]*sx.N{sx.L(binds...)}, body...)...)
 }
 
+// captureLet: a closure created by one initialiser of a let / let* refers to a
+// variable that the SAME form rebinds (before or after it), and is called in the
+// body: it must see the binding of the environment it was created in.
+func (g *G) captureLet(kind string, d int) *sx.N {
+	g.feat(kind + "-rebinds-captured-var")
+	x := g.freshLocal()
+	f := fw.Pick(g.R, []string{"cf", "getx", "k"})
+	outer := g.expr(TInt, d-2)
+	g.push()
+	g.bind(binding{name: x, ty: TInt})
+	clo := sx.Call("lambda", sx.L(sx.Y("q")), sx.Call(fw.Pick(g.R, []string{"+", "-", "*"}), sx.Y("q"), sx.Y(x)))
+	if g.R.Chance(1, 3) {
+		clo = sx.Call("lambda", sx.L(), sx.Y(x))
+	}
+	pair := func(a, b *sx.N) *sx.N {
+		if g.R.Bool() {
+			return sx.B(a, b)
+		}
+		return sx.L(a, b)
+	}
+	binds := []*sx.N{pair(sx.Y(f), clo), pair(sx.Y(x), g.expr(TInt, d-2))}
+	if g.R.Chance(1, 3) {
+		binds[0], binds[1] = binds[1], binds[0]
+	}
+	if g.R.Chance(1, 3) {
+		binds = append(binds, pair(sx.Y(g.freshLocal()), g.expr(TInt, d-2)))
+	}
+	call := sx.Call(f, g.smallInt(0, 9))
+	if len(clo.L[1].L) == 0 {
+		call = sx.Call(f)
+	}
+	body := sx.Call(fw.Pick(g.R, []string{"+", "-", "list"}), sx.Y(x), call, sx.Y(x))
+	if body.Head() == "list" {
+		body = sx.Call("apply", sx.Y("-"), body)
+	}
+	g.pop()
+	return sx.Call("let", sx.L(sx.L(sx.Y(x), outer)), sx.Call(kind, sx.L(binds...), body))
+}
+
 func (g *G) fletForm(t Ty, d int) *sx.N {
 	kind := fw.Pick(g.R, []string{"flet", "labels"})
 	name := fw.Pick(g.R, []string{"h", "k", "helper", "aux"})
@@ -475,8 +525,14 @@ func (g *G) fletForm(t Ty, d int) *sx.N {
 	var body *sx.N
 	if kind == "labels" && g.R.Bool() {
 		// bounded recursion (the only way a labels body refers to itself)
-		body = sx.Call("if", sx.Call("<=", sx.Y(p), sx.I(0)), g.expr(TInt, d-2),
-			sx.Call("+", sx.I(1), sx.Call(name, sx.Call("-", sx.Y(p), sx.I(1)))))
+		var step *sx.N
+		if g.P.Reentrant > 0 && g.chance(g.P.Reentrant) {
+			step = g.reentrantStep(name, p, 0)
+			g.feat("reentrant-recursion")
+		} else {
+			step = sx.Call("+", sx.I(1), sx.Call(name, sx.Call("-", sx.Y(p), sx.I(1))))
+		}
+		body = sx.Call("if", sx.Call("<=", sx.Y(p), sx.I(0)), g.expr(TInt, d-2), step)
 		g.feat("labels-recursion")
 	} else {
 		body = g.expr(TInt, d-1)
@@ -543,7 +599,7 @@ func (g *G) effect(d int) *sx.N {
 func (g *G) mutables() []binding {
 	var out []binding
 	for _, b := range g.visible() {
-		if !b.isFn && b.ty <= TBool {
+		if !b.isFn && b.ty <= TBool && !b.frozen {
 			out = append(out, b)
 		}
 	}
@@ -948,6 +1004,14 @@ func (g *G) Program() []*sx.N {
 	var forms []*sx.N
 	n := g.R.Range(3, g.P.TopForms)
 	for i := 0; i < n; i++ {
+		if g.P.Reentrant > 0 && g.chance(g.P.Reentrant/4) {
+			// a bounded recursion with a re-entrant step, called at once
+			g.forceRe = true
+			forms = append(forms, g.defun())
+			g.forceRe = false
+			forms = append(forms, g.probe("t", g.callUser(g.globals[len(g.globals)-1], 2)))
+			continue
+		}
 		switch g.R.Intn(6) {
 		case 0, 1:
 			forms = append(forms, g.defun())
@@ -994,6 +1058,10 @@ func (g *G) defun() *sx.N {
 	name := fmt.Sprintf("f%d", g.nfun)
 	b := binding{name: name, isFn: true, ret: fw.Pick(g.R, []Ty{TInt, TInt, TListInt, TBool, TStr})}
 	b.req = g.R.Intn(3)
+	if g.forceRe {
+		b.ret = TInt
+		b.req = g.R.Range(1, 3)
+	}
 	var formals []*sx.N
 	g.push()
 	used := map[string]bool{}
@@ -1043,14 +1111,24 @@ func (g *G) defun() *sx.N {
 	}
 	g.inFn++
 	// recursion allowed on own name through a decreasing first parameter
-	if b.req >= 1 && b.ret == TInt && g.R.Bool() {
+	if b.req >= 1 && b.ret == TInt && (g.forceRe || g.R.Bool()) {
 		b.recur = true
 		g.globals = append(g.globals, b)
 		p0 := formals[0].S
 		rec := sx.Call(name, append([]*sx.N{sx.Call("-", sx.Y(p0), sx.I(1))}, g.argsN(b.req-1)...)...)
-		var step *sx.N
+		var step, reBase *sx.N
 		headCall := false
 		switch {
+		case g.P.Reentrant > 0 && (g.forceRe || g.chance(g.P.Reentrant)):
+			// the recursive call sits in an argument position of an operator form that is
+			// re-entered while suspended (reentrant.go); operands must not see the function
+			// (nor may the base case: a call from there would never terminate, and with two
+			// call sites per level a runaway recursion is exponential, not just deep)
+			g.globals = g.globals[:len(g.globals)-1]
+			step = g.reentrantStep(name, p0, b.req-1)
+			reBase = g.expr(TInt, 2)
+			g.globals = append(g.globals, b)
+			g.feat("reentrant-recursion")
 		case b.req == 1 && g.R.Chance(1, 4):
 			// the recursive step is a call whose HEAD is itself a call into the function
 			// (which, for a negative argument, answers with a function that continues it):
@@ -1065,7 +1143,12 @@ func (g *G) defun() *sx.N {
 			step = sx.Call("+", sx.I(1), rec)
 			g.feat("recursion")
 		}
-		inner := sx.Call("if", sx.Call("<=", sx.Y(p0), sx.I(0)), g.expr(TInt, 2), step)
+		var inner *sx.N
+		if reBase != nil {
+			inner = sx.Call("if", sx.Call("<=", sx.Y(p0), sx.I(0)), reBase, step)
+		} else {
+			inner = sx.Call("if", sx.Call("<=", sx.Y(p0), sx.I(0)), g.expr(TInt, 2), step)
+		}
 		if headCall {
 			inner = sx.Call("if", sx.Call("<", sx.Y(p0), sx.I(0)), sx.Call("lambda", sx.L(sx.Y("hc-a")), sx.Call(name, sx.Y("hc-a"))),
 				sx.Call("if", sx.Call("=", sx.Y(p0), sx.I(0)), g.expr(TInt, 2), step))
